@@ -2,3 +2,4 @@ import Model.Basic
 import Model.Core
 import Model.Codec
 import Model.Spec.C01
+import Model.Spec.C05
